@@ -590,7 +590,9 @@ func getNameState(ctx, tokenID) (r)
   pure
   ensures store.has(nkey(tokenID)) && r == rec(store, tokenID) && now < r.Expiration
 
-// which registered name holds the records of `name` is C12's subject; here it is just named
+// tokenOf(s, name) merely names the value tokenIDFromName returns in store s: the assumed contract says that the result is
+// a function of the store and the name (determinism of a read-only function within one transaction, A13) and is not nil.
+// WHICH name it is - the longest usable suffix at a label boundary - is verified on the real function in module tokenid.
 func tokenIDFromName(ctx, name) (r)
   trusted
   pure
@@ -605,17 +607,17 @@ dialect neovm
 
 
 func checkIPv4(data) (r)
-  trusted
+  view names
   pure
   ensures true
 
 func checkIPv6(data) (r)
-  trusted
+  view names
   pure
   ensures true
 
 func checkFragment(v, isRoot) (r)
-  trusted
+  view names
   pure
   ensures true
 
@@ -630,7 +632,8 @@ func splitAndCheck(name) (r)
   ensures r == split(name, ".")
 
 func getParentConflictingRecord(ctx, name, fragments) (r)
-  trusted
+  view ownership
+  requires fragments == split(name, ".")
   pure
   ensures true
 
@@ -639,15 +642,15 @@ func checkRecord(ctx, name, typ, data) (r)
   ensures [C11] r == tokenOf(store, name) && store.has(nkey(r)) && adminOK(rec(store, r))
 
 func updateSoaSerial(ctx, tokenId)
-  trusted
+  view records
   ensures notifs == old(notifs)
 
 func putSoaRecord(ctx, name, email, refresh, retry, expire, ttl)
-  trusted
+  view records
   ensures notifs == old(notifs)
 
 func updateBalance(ctx, tokenId, acc, diff)
-  trusted
+  view ownership
   ensures notifs == old(notifs)
 
 // records can be added, replaced or deleted only with the witness of the owner/admin of the name that holds them
@@ -684,15 +687,15 @@ func Transfer(to, tokenID, data) (ok)
 pure parentName(n Bytes) Bytes = n[indexof(n, ".") + 1 :]
 
 func saveDomain(ctx, name, email, refresh, retry, expire, ttl, owner)
-  trusted
+  view ownership
   ensures notifs == old(notifs)
 
 func updateTotalSupply(ctx, diff)
-  trusted
+  view ownership
   ensures notifs == old(notifs)
 
 func postTransfer(from, to, tokenID, data)
-  trusted
+  view ownership
   ensures true
 
 func Register(name, owner, email, refresh, retry, expire, ttl) (ok)
